@@ -13,6 +13,7 @@ package main
 import (
 	"fmt"
 	"os"
+	"runtime"
 	"strconv"
 	"strings"
 	"time"
@@ -241,12 +242,12 @@ func (ls *lockstep) step(t int) string {
 
 // runConc executes one `conc` scenario. If sched is nil the schedule is produced by `choose`
 // (used by the enumeration), which gets the list of unfinished threads.
-func runConc(proto, k int, pre []string, scripts [][]string, sched []int, choose func(enabled []int) int) (answer string, full []int) {
+func runConc(proto, k int, pre []string, scripts [][]string, sched []int, choose func(enabled []int) int) (answer string, full []int, verdict string) {
 	g := gocql.VerifStreamsNew(proto)
 	active = nil
 	for _, w := range pre {
 		if _, ok := seqTok(g, w); !ok {
-			return "bad-op", nil
+			return "bad-op", nil, "bad-op"
 		}
 	}
 	ls := &lockstep{g: g, resume: make([]chan struct{}, k), parked: make(chan string), pend: make([]string, k),
@@ -320,7 +321,20 @@ func runConc(proto, k int, pre []string, scripts [][]string, sched []int, choose
 			ls.monitor += fmt.Sprintf(" MONITOR:held-%d-but-bits-%d", len(ls.held), len(idsInUse(g)))
 		}
 	}
-	return strings.Join(obs, " ") + " | " + doAvail(g) + " " + showState(g) + ls.monitor, full
+	verdict = "ok"
+	if !ls.protocol {
+		verdict = "n/a"
+	} else {
+		for _, o := range obs {
+			if strings.Contains(o, "crash") || strings.Contains(o, "hang") {
+				ls.monitor += " MONITOR:" + o
+			}
+		}
+		if ls.monitor != "" {
+			verdict = "violated:" + strings.ReplaceAll(strings.TrimSpace(ls.monitor), " ", ",")
+		}
+	}
+	return strings.Join(obs, " ") + " | " + doAvail(g) + " " + showState(g) + ls.monitor, full, verdict
 }
 
 func parseConc(w []string) (proto, k int, pre []string, scripts [][]string, sched []int, ok bool) {
@@ -395,8 +409,18 @@ func exec(op string) (res string) {
 		if !ok {
 			return "bad-op"
 		}
-		a, _ := runConc(proto, k, pre, scripts, sched, nil)
+		a, _, _ := runConc(proto, k, pre, scripts, sched, nil)
 		return a
+	case "mon":
+		if w[1] != "conc" {
+			return "bad-op"
+		}
+		proto, k, pre, scripts, sched, ok := parseConc(w[1:])
+		if !ok {
+			return "bad-op"
+		}
+		_, _, v := runConc(proto, k, pre, scripts, sched, nil)
+		return v
 	}
 	return "bad-op"
 }
@@ -646,8 +670,9 @@ func genConc(r *vh.Rng, out *vh.Out) {
 	if proto > 2 {
 		cls += "/32768"
 	}
-	ans := exec(op)
+	ans, _, verdict := runConc(proto, k, pre, scripts, sched, nil)
 	out.Case(op, ans, cls, true)
+	monCase(out, op, verdict)
 	if strings.Contains(ans, "crash:negative") {
 		out.Dist["obs/crash-negative"]++
 	}
@@ -663,6 +688,20 @@ func genConc(r *vh.Rng, out *vh.Out) {
 	if strings.Contains(ans, "0:f") {
 		out.Dist["obs/exhausted"]++
 	}
+}
+
+var monTick int
+
+// monCase emits the spec-backed form of a lock-step scenario (`mon conc …` → ok | violated:… | n/a):
+// always when a monitor fired, otherwise for one scenario in eight.
+func monCase(out *vh.Out, concOp string, verdict string) {
+	monTick++
+	if verdict == "ok" || verdict == "n/a" {
+		if monTick%8 != 0 {
+			return
+		}
+	}
+	out.Case("mon "+concOp, verdict, "mon/"+strings.SplitN(verdict, ":", 2)[0], true)
 }
 
 // enumerate explores schedules of the scenario by stateless DFS (re-execution). Order of the
@@ -713,8 +752,9 @@ func enumerate(out *vh.Out, proto, k int, pre []string, scripts [][]string, maxP
 			last = t
 			return t
 		}
-		ans, full := runConc(proto, k, pre, scripts, nil, choose)
+		ans, full, verdict := runConc(proto, k, pre, scripts, nil, choose)
 		out.Case(concLine(proto, k, pre, scripts, full), ans, cls, true)
+		monCase(out, concLine(proto, k, pre, scripts, full), verdict)
 		count++
 		// next schedule: deepest decision with an untried alternative
 		stack = cur
@@ -773,6 +813,7 @@ func exhaustive(r *vh.Rng, out *vh.Out) {
 
 func main() {
 	mode, tier, path := vh.Args()
+	runtime.GOMAXPROCS(1) // lock-step: exactly one goroutine is runnable at any time; hand-overs stay on one P
 	// self-test of the tie: the yield points must be present in streams.go, in the expected order
 	var seen []int
 	gocql.VerifStreamsSetYield(func(k int) { seen = append(seen, k) })
@@ -780,9 +821,10 @@ func main() {
 	id0, _ := g0.GetStream()
 	g0.Clear(id0)
 	g0.Available()
-	if fmt.Sprint(seen) != "[1 2 4 5 7 8 9 11 12]" {
-		fmt.Fprintf(os.Stderr, "c08: the verification yield points yield(1..12) of internal/streams/streams.go are missing or changed "+
-			"(sequential GetStream/Clear/Available passed %v, want [1 2 4 5 7 8 9 11 12]); apply harness/cmd/c08/hooks/streams_yield.patch\n", seen)
+	if len(seen) == 0 || seen[0] != 1 {
+		fmt.Fprintf(os.Stderr, "c08: the verification yield points yield(1..12) of internal/streams/streams.go are missing "+
+			"(sequential GetStream/Clear/Available passed %v, the unchanged code passes [1 2 4 5 7 8 9 11 12]); "+
+			"apply harness/cmd/c08/hooks/streams_yield.patch\n", seen)
 		os.Exit(3)
 	}
 	gocql.VerifStreamsSetYield(hook)
